@@ -248,4 +248,72 @@ theorem splitWs_join (ws : List Str) (h : ∀ w ∈ ws, w ≠ [] ∧ ∀ c ∈ w
       simp only [List.append_nil, splitWsAux, hsp, if_true, hrev, Bool.false_eq_true, if_false, List.reverse_reverse]
       rw [ih (fun x hx => h x (by simp [hx]))]
 
+theorem join_splitChar (sep : Char) (s : Str) : join [sep] (splitChar sep s) = s := by
+  induction s with
+  | nil => rfl
+  | cons c cs ih =>
+    unfold splitChar
+    split
+    · rename_i h
+      cases hs : splitChar sep cs with
+      | nil => exact absurd hs (splitChar_ne_nil sep cs)
+      | cons p ps =>
+        rw [hs] at ih
+        simp only [join1_cons2, ih, h]
+        rfl
+    · cases hs : splitChar sep cs with
+      | nil => exact absurd hs (splitChar_ne_nil sep cs)
+      | cons p ps =>
+        rw [hs] at ih
+        simp only
+        cases ps with
+        | nil => simp only [join] at ih ⊢; rw [ih]
+        | cons q qs =>
+          rw [join1_cons2] at ih ⊢
+          rw [List.cons_append, ih]
+
+theorem splitChar_no_sep (sep : Char) (s : Str) : ∀ p ∈ splitChar sep s, sep ∉ p := by
+  induction s with
+  | nil => intro p hp; simp [splitChar] at hp; subst hp; simp
+  | cons c cs ih =>
+    intro p hp
+    unfold splitChar at hp
+    split at hp
+    · simp only [List.mem_cons] at hp
+      rcases hp with rfl | hp
+      · simp
+      · exact ih p hp
+    · rename_i hc
+      cases hs : splitChar sep cs with
+      | nil => exact absurd hs (splitChar_ne_nil sep cs)
+      | cons q qs =>
+        rw [hs] at hp ih
+        simp only [List.mem_cons] at hp
+        rcases hp with rfl | hp
+        · intro hm
+          simp only [List.mem_cons] at hm
+          rcases hm with h | h
+          · exact hc h.symm
+          · exact ih q (by simp) h
+        · exact ih p (by simp [hp])
+
+theorem mem_of_mem_splitChar (sep : Char) (s p : Str) (hp : p ∈ splitChar sep s) : ∀ c ∈ p, c ∈ s := by
+  intro c hc
+  have : c ∈ join [sep] (splitChar sep s) := mem_join_of_mem sep _ p c hp hc
+  rwa [join_splitChar] at this
+where
+  mem_join_of_mem (sep : Char) (ps : List Str) (p : Str) (c : Char) (hp : p ∈ ps) (hc : c ∈ p) : c ∈ join [sep] ps := by
+    induction ps with
+    | nil => cases hp
+    | cons q qs ih =>
+      cases qs with
+      | nil => simp only [List.mem_singleton] at hp; subst hp; simpa [join] using hc
+      | cons r rs =>
+        rw [join1_cons2]
+        rcases List.mem_cons.mp hp with rfl | hp
+        · simp [hc]
+        · simp only [List.mem_append, List.mem_cons]
+          exact Or.inr (Or.inr (ih hp))
+
+
 end Py
